@@ -323,12 +323,21 @@ deriving Repr
 def callReader (env : Env) (i : ReaderInfo) (key : Key) (dtype : Option Str) : Except Err Plan :=
   if env.missing.contains i.reader then .error .importError else i.plan key dtype
 
+/-- `try: x except ImportError: y` -/
+def onImportError (x y : Except Err Plan) : Except Err Plan :=
+  match x with
+  | .error .importError => y
+  | r => r
+
+/-- the helpers a branch may call -/
+def Branch.infos : Branch → List ReaderInfo
+  | .call i => [i]
+  | .tryImport a b => [a, b]
+  | .assertStr i => [i]
+
 def Branch.run (env : Env) (isStream : Bool) (key : Key) (dtype : Option Str) : Branch → Except Err Plan
   | .call i => callReader env i key dtype
-  | .tryImport a b =>
-    match callReader env a key dtype with
-    | .error .importError => callReader env b key dtype
-    | r => r
+  | .tryImport a b => onImportError (callReader env a key dtype) (callReader env b key dtype)
   | .assertStr i => if isStream then .error .assertionError else callReader env i key dtype
 
 /-- the first `if` of `read_signal`: which `force_as` the dispatch chain sees.
